@@ -32,6 +32,58 @@ def transducer_suite(chk, n, suite='AbstractWorker.run vs Mpire.Worker.run (scri
     return lines, impl
 
 
+def ka_histories(rng, n):
+    """keep-alive histories: several calls (other function / lifespan / sizes each time) on one pool, then stop_and_join"""
+    scs = []
+    for _ in range(n):
+        nj = rng.choice([1, 2, 3, 4])
+        pool = {'n_jobs': nj, 'start_method': rng.choice(['fork', 'fork', 'threading']), 'keep_alive': True}
+        if rng.random() < .4:
+            pool['order_tasks'] = True
+        ops = []
+        lifespan = rng.choice([None, None, 1, 2, 3])
+        for k in range(rng.randint(2, 4)):
+            nn = rng.choice([1, 1, 2, 3, 5, 8, 12])
+            op = {'op': rng.choice(['map', 'map_unordered', 'imap', 'imap_unordered']), 'n': nn, 'chunk_size': rng.choice([1, 1, 2]),
+                  'elem': rng.choice(['scalar', 'tuple']), 'init': True, 'exit': True, 'dur': {'kind': 'hash', 'salt': rng.randint(0, 99), 'unit': 0.005}}
+            if rng.random() < .3:
+                lifespan = rng.choice([None, 1, 2, 3])
+            if lifespan:
+                op['worker_lifespan'] = lifespan
+            ops.append(op)
+        ops.append({'op': 'stop_and_join', 'want_exit_results': True})
+        scs.append({'seed': rng.randint(0, 10 ** 6), 'pool': pool, 'ops': ops, 'same_func': rng.random() < .3, 'relax_shape': True})
+    return scs
+
+
+def ka_judge(chk, sc, o):
+    if o.get('harness_error') or o.get('stuck') or any(x.get('outcome') != 'ok' for x in o.get('ops', [])) or len(o.get('ops', [])) != len(sc['ops']):
+        if not o.get('harness_error'):
+            chk.violation('keep_alive_history_completes', {'scenario': sc}, {'stuck': o.get('stuck'), 'outcomes': [(x.get('outcome'), (x.get('exc') or {}).get('type')) for x in o.get('ops', [])]},
+                          'every call of a successful keep-alive history succeeds', input_class='ka_history_fails')
+        return
+    import collections
+    import re
+    by = collections.defaultdict(list)
+    for c in o.get('calls', []):
+        by[c[3]].append(c)
+    case = {'scenario': sc}
+    for tok, cs in by.items():
+        kinds = ''.join({'init': 'I', 'task': 'T', 'exit': 'E'}[c[1]] for c in cs)
+        if not re.fullmatch('IT+E', kinds):
+            chk.violation('instance_shape_over_history', case, {'instance': cs[0][2], 'token': tok, 'sequence': kinds[:80]},
+                          'per worker instance: init, then one or more tasks, then exit (an instance without tasks runs neither)', input_class='ka_shape')
+            return
+    ex = o['ops'][-1].get('exit_results') or []
+    got = collections.Counter(tuple(x) if isinstance(x, list) else x for x in ex)
+    want = collections.Counter(('exit', tok, sum(1 for c in cs if c[1] == 'task' and c[7] is not None)) for tok, cs in by.items())
+    if got != want:
+        chk.violation('exit_results_conserved_over_history', case, {'got': sorted(got.elements(), key=str)[:8], 'expected': sorted(want.elements(), key=str)[:8]},
+                      'get_exit_results() == the values returned by the exit invocations', input_class='ka_exit_results')
+    elif sum(x[2] for x in got.elements()) != sum(op['n'] for op in sc['ops'] if 'n' in op):
+        chk.violation('exit_results_account_for_every_task', case, {'sum': sum(x[2] for x in got.elements())}, 'every task is accounted once', input_class='ka_exit_sum')
+
+
 def run(chk):
     rng = chk.rng
     transducer_suite(chk, 2500 if chk.tier == 'quick' else 40000)
@@ -50,6 +102,13 @@ def run(chk):
                   nontrivial=lambda sc, o: any(c[1] != 'task' for c in o.get('calls', [])),
                   dist=lambda sc, o: {'lifespan': sc['ops'][0].get('worker_lifespan'), 'n_jobs': sc['pool']['n_jobs'],
                                       'instances': min(len({c[3] for c in o.get('calls', [])}), 9)})
+    ka = ka_histories(rng, 200 if chk.tier == 'quick' else 3000)
+    kobs = run_scenarios(chk, 'keep-alive histories under DetSim (per-instance shape over the whole history, exit results at the end)', ka, {'C11', 'C01', 'C02'},
+                         nontrivial=lambda sc, o: len(sc['ops']) >= 3,
+                         dist=lambda sc, o: {'calls': len(sc['ops']) - 1, 'lifespans': str(sorted({str(op.get('worker_lifespan')) for op in sc['ops'][:-1]})),
+                                             'same_func': sc['same_func'], 'idle_workers_possible': any(op.get('n', 99) < sc['pool']['n_jobs'] for op in sc['ops'][1:-1])})
+    for sc, o in zip(ka, kobs):
+        ka_judge(chk, sc, o)
     chk.assumptions += ['exit payloads above the pipe capacity are exercised only by the real-process tier']
 
     def search():
@@ -62,4 +121,7 @@ def run(chk):
             sc['pool'].pop('keep_alive', None)
             extra.append(sc)
         run_scenarios(chk, 'search', extra, {'C11'})
+        ka2 = ka_histories(r, 600)
+        for sc, o in zip(ka2, run_scenarios(chk, 'search', ka2, {'C11'})):
+            ka_judge(chk, sc, o)
     return search
